@@ -24,6 +24,14 @@ use std::time::SystemTime;
 
 const MAX_DECIMAL_U64_BYTES: usize = 20; // u64::max_value().to_string().len()
 
+/// Truncates `t` to whole seconds, the resolution of an HTTP date such as `Last-Modified`.
+fn truncate_to_secs(t: SystemTime) -> SystemTime {
+    match t.duration_since(SystemTime::UNIX_EPOCH) {
+        Ok(d) => SystemTime::UNIX_EPOCH + std::time::Duration::from_secs(d.as_secs()),
+        Err(_) => t,
+    }
+}
+
 fn parse_modified_hdrs(
     etag: &Option<HeaderValue>,
     req_hdrs: &HeaderMap,
@@ -35,7 +43,7 @@ fn parse_modified_hdrs(
         (last_modified, req_hdrs.get(header::IF_UNMODIFIED_SINCE))
     {
         const ERR: &str = "Unparseable If-Unmodified-Since";
-        *m > parse_http_date(since.to_str().map_err(|_| ERR)?).map_err(|_| ERR)?
+        truncate_to_secs(*m) > parse_http_date(since.to_str().map_err(|_| ERR)?).map_err(|_| ERR)?
     } else {
         false
     };
@@ -56,7 +64,8 @@ fn parse_modified_hdrs(
                 (last_modified, req_hdrs.get(header::IF_MODIFIED_SINCE))
             {
                 const ERR: &str = "Unparseable If-Modified-Since";
-                *m <= parse_http_date(since.to_str().map_err(|_| ERR)?).map_err(|_| ERR)?
+                truncate_to_secs(*m)
+                    <= parse_http_date(since.to_str().map_err(|_| ERR)?).map_err(|_| ERR)?
             } else {
                 false
             }
